@@ -53,3 +53,9 @@ CLAIMED["C07"] = (
     "of valid streams with end of stream go through the real adapters under catch_unwind; hostile local handshakes run over real TCP; recorded attacked runs are "
     "validated by TLC with NoPanic evaluated in every state.",
     TB + "; undefined behaviour that does not crash is not observable and not claimed", "5.7")
+CLAIMED["C14"] = (
+    "model_checking", "TLA+ Address model (symbolic bytes; both encodings; every name length), each case entered through the client's real doors and round-tripped through the real encoders/decoders",
+    "TLC enumerates every (encoding style, address kind, name length class - every length 0..1024 in the thorough tier, tail) with symbolic bytes, so truncation or "
+    "re-interpretation of any byte shows, checks ExactOrRefused and that the former 'len as u8' behaviour violates it; each case is presented at the client's real doors "
+    "(SOCKS5 request, HTTP request line, CONNECT, local UDP datagram) and every admitted address goes through the real encode/length/try_decode_at/decode of its style with a tail.",
+    TB, "5.14")
